@@ -52,6 +52,14 @@ func c11VM(lang string, seeded bool, seed uint64, flags int) *ds.Context {
 
 // programs: syntax errors of every message kind (their text depends on the language), runtime errors, values with dice
 var c11ErrProgs = []string{"1 + (2 * ", "", "[1, 2", "{'a': 1", "'abc", "1 +", "@@", ")", "`a{1", "x = ", "2d6 + * 3", "f(1,", "1 ? 2 :", "力量 + (", "1 +\n  (2 *\n"}
+
+// programs that touch every object the VMs could share: each built-in method and function, computed values, templates, dice
+var c11SharedProgs = []string{"[3,1,2].kh(2)", "[3,1,2].kl()", "[1,2,3].sum() + [4,5].sum()", "[1,2,3].len()", "a = [1,2,3]; a.push(4); a.pop(); a.shift(); a", "a = [5,6,7]; a.shuffle(); a.len()",
+	"[1,2,3].rand() > 0", "[1,2,3,4].randSize(2).len()", "d = {'a':1,'b':2}; d.len() + d.keys().len() + d.values().len() + d.items().len()", "&cq = 1 + 2; cq.compute()",
+	"ceil(1.2) + floor(1.8) + round(2.5) + abs(-3)", "toInt('12') + toFloat('1.5') + toInt(toStr(7))", "toBool([]) ? 1 : 2", "repr([1,'a',{'k':null}])", "typeId(1) + typeId('s') + typeId([])", "dir([]).len() > 0",
+	"x = 5; load('x') + 1", "store('zz', 3); zz + 1", "`{[1,2].sum()}-{[3].len()}-{abs(-1)}`", "func mm(v) { v.len() + v.sum() }; mm([1,2,3]) + mm([4])", "[[1,2],[3]].len() + [[1,2],[3]][0].sum()",
+	"[1,2,3].kh() + [4,5,6].kl() + [7].sum()", "a = [1]; i = 0; while i < 5 { a.push(i); i = i + 1 }; a.sum()", "4d6kh3 + [1,2].sum()", "[2d6, 2d6].kh()", "`{%a=[1,2]; a.push(3)%}{a.len()}`"}
+
 var c11ValProgs = []string{"2d6 + 3d10 + 1", "x = 5d20k2; x * 2", "func f(n) { n + 2d4 }; f(1) + f(2)", "[1,2,3,4,5].rand() + 1d8", "`r={3d6}`", "&c = 2d6; c + c", "4d6kh3 - 1d100 / 7",
 	"a = [1,2,3]; a.shuffle(); a.sum() + 1d4", "i = 0; s = 0; while i < 5 { s = s + 1d6; i = i + 1 }; s", "1/0", "null + 1", "[1,2][5]"}
 
@@ -218,7 +226,11 @@ func init() {
 		jobs := make([][]job, *gor)
 		for g := range jobs {
 			for k := 0; k < *rounds; k++ {
-				jobs[g] = append(jobs[g], job{langs[(g+k/7)%3], (g+k)%3 != 0, uint64(r.Int63()), r.Intn(16), pool[r.Intn(len(pool))]})
+				src := pool[r.Intn(len(pool))]
+				if k%2 == 0 { // every second evaluation uses the objects VMs could share
+					src = c11SharedProgs[r.Intn(len(c11SharedProgs))]
+				}
+				jobs[g] = append(jobs[g], job{langs[(g+k/7)%3], (g+k)%3 != 0, uint64(r.Int63()), r.Intn(16), src})
 			}
 		}
 		// isolated runs first, single goroutine
